@@ -729,8 +729,34 @@ def make_reduce(op: str, body: tuple, dom, level: int) -> tuple:
                     return div(mul(mul(sub(x, ONE), x), sub(mul(const(2), x), ONE)), const(6))
                 s2 = sub(sq(hi), sq(lo))
                 return add(add(mul(a, s0), mul(b, s1)), mul(c, s2))
-    # indicator factors become filters of the domain:  sum_{x in D} [c(x)] f(x) = sum_{x in filter(D, c)} f(x)
+    if op == "sum" and bv not in _dom_leaves(dom):
+        # linearity: sum_x (c1*A1(x) + c2*A2(x)) = c1*sum_x A1(x) + c2*sum_x A2(x), with every factor that
+        # does not mention the bound variable pulled out of the sum
+        out = ZERO
+        for m, c in body[1]:
+            dep, indep = [], []
+            for at, e in m:
+                (dep if (_mentions_bv(at, bv) or _mentions_bv(e, bv)) else indep).append((at, e))
+            dep_p = P({tuple(dep): Fraction(1)})
+            indep_p = P({tuple(indep): c})
+            if not dep:
+                red = atom_poly(("sum", ONE, dom, level))  # = |dom|
+            else:
+                red = atom_poly(("sum", dep_p, dom, level))
+            out = add(out, mul(indep_p, red))
+        return out
     return atom_poly((op, body, dom, level))
+
+
+def _mentions_bv(x, bv: str) -> bool:
+    for l in leaves(x):
+        if l == bv or l.startswith(bv + "."):
+            return True
+    return False
+
+
+def _dom_leaves(dom) -> set:
+    return leaves(dom)
 
 
 def _factors_of_single(p: tuple):
